@@ -3,5 +3,5 @@ CONSTANT Log <- TraceLog
 CONSTANT MaxH <- TraceMaxH
 INIT TInit
 NEXT TNext
-INVARIANTS ExactlyOnceInOrder LoggedSizeBound NotAccepted
+INVARIANTS ExactlyOnceInOrder NotAccepted
 CHECK_DEADLOCK FALSE
